@@ -54,7 +54,9 @@ def g1_nodes(draw, min_nodes=2, max_nodes=7, prefix="n", out_prefix="o", in_pref
             "outs": outs,
         }
         if p_const and nout == 1 and prob(draw, p_const):
-            spec["ret"] = draw(st.sampled_from([None, None, 0, False, "", []]))  # legal output values that are falsy / None
+            # legal output values that are falsy / None, and tuples of length 0, 1, 2 returned for ONE declared output (the value is
+            # the tuple itself: nothing is unpacked)
+            spec["ret"] = draw(st.sampled_from([None, None, 0, False, "", [], ["solo"], [[]], ["two", "parts"], [None]]))
         nodes.append(spec)
         for o in outs:
             produced.add(o)
